@@ -50,3 +50,9 @@ TEXT["C05"] = {
     "design_ref": "DESIGN.md section 3, C05",
     "level_note": "Real loopback HTTP; consumer is count-bounded so a looping pager fails the case instead of hanging it.",
 }
+TEXT["C12"] = {
+    "technique": "property-based testing: complete enumeration over two repositories (all allow/deny tables x 18 methods x argument choices) plus rapid-generated policies/arguments; oracle = recording backend (zero calls when rejected, one identical call when allowed) and identity of the policy's error",
+    "level_text": "Every run enumerates, for two repositories, all 256 AccessChecker tables and all 4 Select policies x 18 methods x every choice of involved repositories (all four mount pairs, empty and non-empty resume ids): a rejected call must not reach the recording backend and must return the policy's own error (Select: name-unknown / denied), an allowed call must reach it exactly once with the caller's context and arguments and hand back the backend's own reader / writer / results. rapid adds random policies over more names (incl. '*' as a repository), listing filters, offsets and start points.",
+    "design_ref": "DESIGN.md section 3, C12",
+    "level_note": "The finite part is exhaustive for two repositories; policies with side effects or depending on anything but (name, kind) are outside the property.",
+}
